@@ -1,4 +1,144 @@
-(* C06 - segwit addresses (stub while the proofs are being written) *)
-From Coq Require Import ZArith List.
-Require Import Bits.Lib.Result Bits.Lib.Bytes Bits.Spec.Bip173 Bits.Model.Bech32.
+(* C06 - segwit addresses round-trip and are accepted exactly per BIP173/BIP350; classifiers are total.
+   Only the property theorems (closed by [exact]), their assumptions, and concrete instances.
+   Model: Model/Bech32.v (bip173.py, bip350.py, utils.py as written); Spec: Spec/Bip173.v (from the BIP text). *)
+From Coq Require Import ZArith List Bool.
+Require Import Bits.Lib.Result Bits.Lib.Bytes Bits.Lib.Radix.
+Require Import Bits.Spec.Bip173 Bits.Model.Base58 Bits.Model.Bech32.
+Require Import Bits.Proofs.Bech32Checksum Bits.Proofs.Bech32Regroup Bits.Proofs.Bech32Parse
+               Bits.Proofs.Bech32 Bits.Proofs.Bech32Roundtrip.
 Import ListNotations.
+Local Open Scope Z_scope.
+
+(* ---- checksum_sound: verify accepts what create produced, for every 30-bit constant ---- *)
+Theorem C06_checksum_sound : forall (hrp : bytes) (d : list Z) (c : Z),
+  in_range 32 d -> 0 <= c < 2 ^ 30 ->
+  bech32_verify_checksum hrp (d ++ bech32_create_checksum hrp d c) c = true.
+Proof. exact checksum_sound. Qed.
+Print Assumptions C06_checksum_sound.
+
+(* ... in particular for the Bech32 constant 1 and the Bech32m constant 0x2bc830a3 *)
+Theorem C06_checksum_sound_both : forall (hrp : bytes) (d : list Z), in_range 32 d ->
+  bech32_verify_checksum hrp (d ++ bech32_create_checksum hrp d 1) 1 = true /\
+  bech32_verify_checksum hrp (d ++ bech32_create_checksum hrp d 0x2bc830a3) 0x2bc830a3 = true.
+Proof. exact checksum_sound_both. Qed.
+Print Assumptions C06_checksum_sound_both.
+
+(* the code's polymod / hrp expansion are the BIP's *)
+Theorem C06_polymod_is_spec : forall vs, bech32_polymod vs = polymod vs.
+Proof. exact polymod_spec. Qed.
+Print Assumptions C06_polymod_is_spec.
+
+(* ---- regroup_roundtrip: 8->5 on the big integer, then 5->8, is the identity (any non-empty data) ---- *)
+Theorem C06_regroup_roundtrip : forall data : bytes, data <> [] -> bech32_decode (regroup_8to5 data) = Ok data.
+Proof. exact regroup_roundtrip. Qed.
+Print Assumptions C06_regroup_roundtrip.
+
+(* bech32_decode's integer arithmetic is BIP173's bit regrouping with its two padding conditions *)
+Theorem C06_decode_is_bip173_regrouping : forall (data : bytes) (vs : list Z),
+  values_of data = Some vs -> vs <> [] ->
+  bech32_decode data = match convert_5to8 vs with Some p => Ok p | None => Err AssertionE end.
+Proof. exact decode_is_bip173_regrouping. Qed.
+Print Assumptions C06_decode_is_bip173_regrouping.
+
+(* ---- segwit_roundtrip: three networks, version 0..16, every program length allowed for the version ---- *)
+Theorem C06_segwit_roundtrip : forall (net hrp : bytes) (v : Z) (prog : bytes),
+  In (net, hrp) [(net_mainnet, hrp_bc); (net_testnet, hrp_tb); (net_regtest, hrp_bcrt)] ->
+  0 <= v <= 16 ->
+  program_length_ok v (length prog) = true ->       (* 2..40 bytes; 20 or 32 for version 0 *)
+  exists addr,
+    segwit_addr prog v net = Ok addr
+    /\ decode_segwit_addr addr = Ok (hrp, v, prog)
+    /\ assert_valid_segwit hrp v prog = Ok tt
+    /\ lenZ addr <= 90
+    /\ spec_decode addr = Some (hrp, v, prog)
+    /\ is_segwit_addr addr = Ok true
+    /\ to_bitcoin_address_witness prog net v = Ok addr.
+Proof. exact segwit_roundtrip. Qed.
+Print Assumptions C06_segwit_roundtrip.
+
+(* ---- accept_iff_spec: decoder + validity check accept exactly the BIP173/BIP350-valid strings,
+        and return the hrp / version / program the BIPs define; FOR EVERY BYTE STRING ---- *)
+Theorem C06_accept_iff_spec : forall (s : bytes) (r : bytes * Z * bytes),
+  decode_valid s = Ok r <-> spec_decode s = Some r.
+Proof. exact accept_iff_spec. Qed.
+Print Assumptions C06_accept_iff_spec.
+
+Theorem C06_accept_iff_spec_parts : forall (s hrp : bytes) (v : Z) (prog : bytes),
+  (decode_segwit_addr s = Ok (hrp, v, prog) /\ assert_valid_segwit hrp v prog = Ok tt)
+  <-> spec_decode s = Some (hrp, v, prog).
+Proof. exact accept_iff_spec_parts. Qed.
+Print Assumptions C06_accept_iff_spec_parts.
+
+Theorem C06_accept_iff_valid : forall s : bytes,
+  (exists r, decode_valid s = Ok r) <-> valid_segwit s = true.
+Proof. exact accept_iff_valid. Qed.
+Print Assumptions C06_accept_iff_valid.
+
+(* the functional form: one equation that also fixes the exception class of every rejection *)
+Theorem C06_decode_valid_equation : forall s : bytes,
+  decode_valid s = match spec_decode s with Some r => Ok r | None => Err AssertionE end.
+Proof. exact decode_valid_spec. Qed.
+Print Assumptions C06_decode_valid_equation.
+
+(* ---- classifiers_total: only AssertionError can occur inside, so the classifiers return a bool ---- *)
+Theorem C06_only_assertion_errors : forall (s : bytes) (e : err),
+  (decode_valid s = Err e -> e = AssertionE) /\ (decode_segwit_addr s = Err e -> e = AssertionE).
+Proof. exact only_assertion_errors. Qed.
+Print Assumptions C06_only_assertion_errors.
+
+Theorem C06_classifiers_total : forall (sha256 : bytes -> bytes) (s : bytes),
+  (exists b, is_segwit_addr s = Ok b) /\ (exists b, is_addr sha256 s = Ok b).
+Proof. exact classifiers_total. Qed.
+Print Assumptions C06_classifiers_total.
+
+(* ... and the bool is the right one *)
+Theorem C06_classifiers_exact : forall (sha256 : bytes -> bytes) (s : bytes),
+  is_segwit_addr s = Ok (valid_segwit s)
+  /\ is_addr sha256 s = Ok (is_base58check sha256 s || valid_segwit s)
+  /\ assert_addr sha256 s = (if is_base58check sha256 s || valid_segwit s then Ok true else Err AssertionE).
+Proof. exact classifiers_exact. Qed.
+Print Assumptions C06_classifiers_exact.
+
+(* ---- a deviation of the generic Bech32 layer (NOT of segwit addresses): parse_bech32 demands a letter.
+        b"21798023604" is a valid Bech32 string (hrp "2", data [30;5;7]) that bip173.parse_bech32 rejects with
+        "mixed case string", because bytes.isupper() and bytes.islower() are both False without letters.
+        Segwit addresses are unaffected (their hrp contains letters): C06_accept_iff_spec holds. ---- *)
+Import Coq.Init.Byte.
+Theorem C06_bech32_without_letters_refuted :
+  exists s, spec_bech32_decode s 1 = Some ([x32], [30; 5; 7])
+            /\ parse_bech32 s = Err AssertionE /\ decode_bech32_string s 1 = Err AssertionE.
+Proof. exact bech32_without_letters_refuted. Qed.
+Print Assumptions C06_bech32_without_letters_refuted.
+
+(* ---- concrete instances (non-vacuity of the hypotheses, BIP vectors) ---- *)
+Definition prog20 : bytes :=    (* 751e76e8199196d454941c45d1b3a323f1433bd6 *)
+  [x75; x1e; x76; xe8; x19; x91; x96; xd4; x54; x94; x1c; x45; xd1; xb3; xa3; x23; xf1; x43; x3b; xd6].
+(* b"bc1qw508d6qejxtdg4y5r3zarvary0c5xw7kv8f3t4": BIP173's first example *)
+Definition addr_bip173 : bytes :=
+  [x62; x63; x31; x71; x77; x35; x30; x38; x64; x36; x71; x65; x6a; x78; x74; x64; x67; x34; x79; x35; x72;
+   x33; x7a; x61; x72; x76; x61; x72; x79; x30; x63; x35; x78; x77; x37; x6b; x76; x38; x66; x33; x74; x34].
+Example C06_ex_encode : segwit_addr prog20 0 net_mainnet = Ok addr_bip173
+  /\ program_length_ok 0 (length prog20) = true /\ In (net_mainnet, hrp_bc) networks.
+Proof. vm_compute. auto. Qed.
+Example C06_ex_decode : decode_valid addr_bip173 = Ok (hrp_bc, 0, prog20)
+  /\ spec_decode addr_bip173 = Some (hrp_bc, 0, prog20) /\ is_segwit_addr addr_bip173 = Ok true.
+Proof. vm_compute. auto. Qed.
+(* b"BC1SW50QGDZ25J": BIP350, version 16, 2-byte program, all upper case *)
+Example C06_ex_upper : decode_valid [x42; x43; x31; x53; x57; x35; x30; x51; x47; x44; x5a; x32; x35; x4a]
+  = Ok (hrp_bc, 16, [x75; x1e]).
+Proof. vm_compute. reflexivity. Qed.
+(* b"bc1b9zpgru" (non-table character in the version position) and b"bc1q9zpgru" (version + checksum
+   only) made the pinned code raise KeyError / IndexError out of is_segwit_addr: now a plain False *)
+Example C06_ex_total : is_segwit_addr [x62; x63; x31; x62; x39; x7a; x70; x67; x72; x75] = Ok false
+  /\ is_segwit_addr [x62; x63; x31; x71; x39; x7a; x70; x67; x72; x75] = Ok false
+  /\ is_segwit_addr [] = Ok false /\ is_segwit_addr [xff] = Ok false.
+Proof. vm_compute. auto. Qed.
+(* all-zero 32-byte program, version 0 (rejected by the pinned code), and a 2-byte version-1 program *)
+Example C06_ex_zero_program :
+  match segwit_addr (repeat x00 32) 0 net_testnet with
+  | Ok a => decode_valid a = Ok (hrp_tb, 0, repeat x00 32) | Err _ => False end
+  /\ match segwit_addr [x00; x01] 1 net_regtest with
+     | Ok a => decode_valid a = Ok (hrp_bcrt, 1, [x00; x01]) | Err _ => False end.
+Proof. vm_compute. auto. Qed.
+Example C06_ex_checksum_hyp : in_range 32 [0; 14; 20; 15; 7; 13; 26; 0; 25; 18] /\ 0 <= BECH32M_CONST < 2 ^ 30.
+Proof. split; [repeat constructor; vm_compute; congruence|vm_compute; split; congruence]. Qed.
